@@ -37,7 +37,7 @@ for d, fl in dirs.items():
     log = "/tmp/mut_%s_%s.log" % (pid, kk)
     with open(log, "w") as lf:
         subprocess.run(cmd, stdout=lf, stderr=subprocess.STDOUT)
-    txt = open(log).read()
+    txt = open(log, errors="replace").read()
     print("## %s-%s demo dir %s (log %s)" % (pid, kk, d, log))
     for line in txt.splitlines():
         if re.match(r"^(== |ok |FAIL|ran |VIOLATION|rc=|  signature=|PATCH|INCONCL)", line):
